@@ -205,7 +205,7 @@ def lcm_list(ds):
 def gen_layout(rng):
     """Measures / signatures shared by the parts of a case, in quarters (integers)."""
     b, bt, q = rng.choice(TS_CHOICES)
-    nm = rng.randint(1, 3)
+    nm = rng.choice([1, 2, 2, 3])
     pickup = rng.random() < 0.35 and q > 1
     t = 0
     measures = []
@@ -238,7 +238,7 @@ def gen_part(rng, pi, d, layout, layout_flags, mode, many_voices=False):
         els.append({"cls": "KeySignature", "s": 0, "e": None, "fifths": layout["ks"][0], "kmode": layout["ks"][1]})
     # a few positions per part, in this part's own divisions (Part.iter_all() without a class costs
     # milliseconds per time point, so the number of distinct time points is kept small)
-    grid = sorted(set([0, total] + [rng.randrange(0, total + 1) for _ in range(rng.choice([2, 3, 4, 5]))]))
+    grid = sorted(set([0, total] + [rng.randrange(0, total + 1) for _ in range(rng.choice([1, 2, 3, 3, 4]))]))
 
     def span():
         a = rng.randrange(0, len(grid) - 1)
@@ -352,9 +352,11 @@ def gen_case(rng, mode=None, force_many_voices=False):
     r = rng.random()
     if r < 0.07:
         ds = ds[:1]                                  # a single part
-    elif r < 0.2 and len(ds) < 4:
+    elif r < 0.17 and len(ds) < 4:
         ds.append(rng.choice(ds + [1, 7]))
     rng.shuffle(ds)
+    if len(ds) > 2 and rng.random() < 0.3:
+        ds = ds[:2]                                  # (merge_parts costs milliseconds per time point)
     layout = gen_layout(rng)
     parts = []
     many = force_many_voices or (mode == "auto" and rng.random() < 0.04)
@@ -743,15 +745,30 @@ def failure_classes(case):
     return ([f] if f else []) + [x[0] for x in (o or {}).get("soft", [])]
 
 
-def shrink_case(case, fclass):
-    """ddmin over the elements of each part, keeping the failure class."""
+def shrink_case(case, fclass, budget=80):
+    """ddmin over the elements of each part, keeping the failure class (at most `budget` runs of the
+    implementation: one merge costs some tenths of a second)."""
     case = json.loads(json.dumps(case))
+    left = [budget]
 
     def still(c):
+        if left[0] <= 0:
+            return False
+        left[0] -= 1
         try:
             return fclass in failure_classes(c)
         except Exception:
             return False
+    # whole parts first (never below two parts; the container becomes a plain list)
+    while len(case["parts"]) > 2:
+        for pi in range(len(case["parts"]) - 1, -1, -1):
+            cand = dict(case, parts=[p for k, p in enumerate(case["parts"]) if k != pi])
+            cand["container"] = {"type": "list", "tree": list(range(len(cand["parts"])))}
+            if still(cand):
+                case = cand
+                break
+        else:
+            break
     for pi in range(len(case["parts"])):
         spec = case["parts"][pi]
         if len(spec["elems"]) < 2:
@@ -880,7 +897,16 @@ def check_loader(case, workdir, k):
 
 
 def report(ctx, case, fclass, msg, obs, soft_detail=None):
-    small = shrink_case(case, fclass)
+    raw = {"kind": "merge", "case": case, "fclass": fclass, "message": msg}
+    d0 = soft_detail or (obs or {}).get("detail")
+    if d0:
+        raw["detail"] = d0
+    if any(pred(raw) for kid, pred in ctx.matchers.items() if any(k["id"] == kid for k in ctx.known)):
+        # a known finding: recorded with the input as generated (shrinking costs many merges)
+        ctx.violation("merge_parts(reassign=%r) on %d parts (divisions %r): %s" % (
+            case["mode"], len(case["parts"]), [p["divs"] for p in case["parts"]], msg), raw)
+        return
+    small = shrink_case(case, fclass, budget=80)
     f2, m2, o2 = check_case(small)
     detail = (o2 or {}).get("detail")
     if f2 != fclass:
@@ -913,25 +939,26 @@ def run(ctx):
                        "object ids unique; tie links stay inside a part and are acyclic"]
     ctx.matchers["C15-K1"] = match_k1
     ctx.matchers["C15-K2"] = match_k2
-    ok, why = ctx.coq_props(expect_min=14)
+    ok, why = ctx.coq_props(expect_min=18)
     if not ok:
         ctx.log("coq_props failed: " + why[:2000])
     quick = ctx.tier == "quick"
     nv0 = len(ctx.violations)
     rng = ctx.rng
     cases = [("corpus", c) for c in corpus_cases()]
-    for k in range(300 if quick else 5000):
+    for k in range(110 if quick else 2000):
         cases.append(("random", gen_case(rng)))
     for mode in MODES:          # weight on the corner the property singles out, in every mode
-        for k in range(10 if quick else 100):
+        for k in range(8 if quick else 60):
             cases.append(("random", gen_case(rng, mode=mode)))
     ss = small_scope_cases()
     if quick:
-        ss = [ss[i] for i in sorted(rng.sample(range(len(ss)), 150))]
+        ss = [ss[i] for i in sorted(rng.sample(range(len(ss)), 100))]
     cases += [("small_scope", c) for c in ss]
     cases.append(("random", gen_case(rng, mode="auto", force_many_voices=True)))
     terms, tcases = [], []
     seen_fail = {}
+    ctx.log("cases generated: %d" % len(cases))
     for origin, case in cases:
         try:
             fclass, msg, obs = check_case(case)
@@ -969,6 +996,7 @@ def run(ctx):
             tcases.append(case)
         except Exception as e:
             ctx.violation("cannot print case for Coq: %r" % e, {"kind": "merge", "case": case, "fclass": "printer"}, no_input=True)
+    ctx.log("oracle done")
     # the loader that relies on merge_parts
     nload = 6 if quick else 60
     done = 0
@@ -994,6 +1022,7 @@ def run(ctx):
     for fn in os.listdir(ctx.work):
         if fn.startswith("loader_"):
             os.remove(os.path.join(ctx.work, fn))
+    ctx.log("loader done")
     # correspondence
     what = ("model merge_parts (returned part / lcm, every element with origin, class, start, end, voice, staff) = implementation; "
             "model note array of the merged elements = merged part's note_array(include_staff); C05 score_array of the inputs = "
